@@ -66,6 +66,10 @@ func runC02(c *Ctx) {
 	c.ruleM3c("S6-return-sets-flag")
 	c.Min("S6-flag-shape", 30)
 	c.ruleS7("S7-assignment-table")
+	// S10: the statement nodes hold the children the listener gave them
+	c.ruleAcceptStoresGiven("S10-nodes-hold-what-was-parsed", map[string]bool{"IfStmt": true, "ElseIfStmt": true, "ElseStmt": true, "ForStmt": true, "ForRangeStmt": true,
+		"Statement": true, "RuleContent": true, "ReturnStatement": true, "Assignment": true})
+	c.Min("S10-nodes-hold-what-was-parsed", 20)
 	// S8 shares C15's rules: one store per execution, threaded unchanged
 	n := 0
 	for _, f := range c.AllFns {
